@@ -12,6 +12,11 @@ std::string g_out;
 std::string g_abort_note;
 type_id g_obj_static_id = 0;
 type_id g_id_table[kIdFns];
+type_id g_tag_ids[kTags];
+template<int... I>
+static void fill_tags(std::integer_sequence<int, I...>) {
+    ((g_tag_ids[I] = reinterpret_cast<type_id>(&typeid(Tag<I>))), ...);
+}
 std::vector<Ran> g_ran;
 std::vector<std::uintptr_t> g_passed;
 bool g_follow_next = false;
@@ -55,6 +60,44 @@ struct LNode : yorel::yomm2::detail::static_list<LNode>::static_link {
 };
 static yorel::yomm2::detail::static_list<LNode> g_list;
 static LNode g_nodes[64];
+
+static bool fwd_op(const std::vector<std::string>& tok, const std::string& line) {
+    auto esc = [](const std::string& text) {
+        std::string out;
+        for (char c : text) {
+            if (c == '\n') {
+                out += "|";
+            } else {
+                out += c;
+            }
+        }
+        return out;
+    };
+    if (tok[0] == "fwd-names") {
+        // fwd-names a::b::C d::E ... : qualified names given directly
+        yorel::yomm2::generator g;
+        for (std::size_t i = 1; i < tok.size(); ++i) {
+            g.add_forward_declaration(std::string_view(tok[i]));
+        }
+        std::ostringstream os;
+        g.write_forward_declarations(os);
+        emit("fwd " + esc(os.str()));
+        return true;
+    }
+    if (tok[0] == "fwd-type") {
+        // fwd-type <type description up to the end of the line>
+        yorel::yomm2::generator g;
+        auto pos = line.find("fwd-type");
+        std::string type = line.substr(pos + 8);
+        while (!type.empty() && type[0] == ' ') type.erase(0, 1);
+        g.add_forward_declaration(std::string_view(type));
+        std::ostringstream os;
+        g.write_forward_declarations(os);
+        emit("fwd " + esc(os.str()));
+        return true;
+    }
+    return false;
+}
 
 static bool list_op(const std::vector<std::string>& tok) {
     auto idx = [](LNode* p) -> long { return p ? long(p - g_nodes) + 1 : 0; };
@@ -141,7 +184,7 @@ static void run_script(const std::vector<std::string>& lines, int fd) {
                 seen[tok[1]] = true;
                 cur->reset();
             }
-        } else if (list_op(tok)) {
+        } else if (list_op(tok) || fwd_op(tok, line)) {
         } else if (tok[0] == "echo") {
             emit("@" + (tok.size() > 1 ? tok[1] : std::string()));
         } else if (tok[0] == "rng") {
@@ -161,6 +204,7 @@ static void run_script(const std::vector<std::string>& lines, int fd) {
 
 int main(int argc, char** argv) {
     fill_idfns(std::make_integer_sequence<int, kIdFns>{});
+    fill_tags(std::make_integer_sequence<int, kTags>{});
     bool nofork = argc > 1 && std::string(argv[1]) == "--nofork";
     std::string line, name;
     std::vector<std::string> lines;
